@@ -463,6 +463,9 @@ func rdStart(c *Ctx, prop string, wp bool) *rdState {
 	// worker i started at +11us+i*101us); message delays and stop times stay on the exact grid.
 	st.pi = []time.Duration{100 * time.Millisecond, 50 * time.Millisecond, 250 * time.Millisecond}[w.Draw(3)] + 37*time.Microsecond
 	st.window = 1 + w.Draw(8)
+	if w.Draw(8) == 7 {
+		st.window = actor.MaxReliableFlowControlWindow // the legal maximum (boundary of the demand-range check)
+	}
 	st.n = 5 + w.Draw(36)
 	if w.Draw(3) != 0 { // most runs small: steps are the budget
 		st.n = 5 + st.n%12
